@@ -36,10 +36,17 @@ func main() {
 		if t := os.Getenv("VERIF_TIER"); t != "" && len(os.Args) <= 2 {
 			tier = t
 		}
+		if os.Getenv("VERIF_SUPERVISED") == "" && os.Getenv("VERIF_NO_SUPERVISOR") == "" && p.ID != "C15" && p.ID != "C18" {
+			os.Exit(supervise(p.ID))
+		}
 		r := mc.NewRun(p.ID, tier)
 		r.Build = buildKind
 		r.Extra["alphabet_audit"] = audit.Evidence()
+		if n := os.Getenv("VERIF_SUPERVISOR_NOTE"); n != "" {
+			r.Extra["supervisor"] = n
+		}
 		p.Run(r)
+		r.Confirm(p.Replay)
 		os.Exit(r.Finish())
 	}
 }
@@ -54,6 +61,12 @@ func replay(path string) int {
 	if err := json.Unmarshal(b, &v); err != nil {
 		fmt.Fprintln(os.Stderr, err)
 		return 2
+	}
+	if v.Scenario == "whole-check" {
+		// the artefact records that the library took the checking process down: run the check again under supervision
+		os.Args = []string{os.Args[0], v.Property, "quick"}
+		os.Setenv("VERIF_NO_EVIDENCE", "1")
+		return supervise(v.Property)
 	}
 	p := reg.Get(v.Property)
 	if p == nil || p.Replay == nil {
